@@ -5,6 +5,10 @@ package certsign
 
 import (
 	"bytes"
+	"os"
+	"os/exec"
+	"path/filepath"
+	"sync"
 	"crypto/ecdh"
 	"crypto/ecdsa"
 	"crypto/elliptic"
@@ -126,6 +130,240 @@ func marshalOK(f cl.Fields) bool {
 	return true
 }
 
+// ---- nebula-cert as a subprocess --------------------------------------------------------------------
+
+var (
+	cliOnce sync.Once
+	cliBin  string
+	cliErr  error
+)
+
+// nebulaCert builds cmd/nebula-cert from $VERIF_REPO into the run directory (once per process).
+func nebulaCert() (string, error) {
+	cliOnce.Do(func() {
+		repo := os.Getenv("VERIF_REPO")
+		if repo == "" {
+			repo = "/repo"
+		}
+		dir := filepath.Dir(os.Getenv("VERIF_IMPL"))
+		if os.Getenv("VERIF_IMPL") == "" {
+			dir, cliErr = os.MkdirTemp("", "nebula-cert-bin")
+			if cliErr != nil {
+				return
+			}
+		}
+		cliBin = filepath.Join(dir, fmt.Sprintf("nebula-cert-%d", os.Getpid()))
+		cmd := exec.Command("go", "build", "-o", cliBin, "./cmd/nebula-cert")
+		cmd.Dir = repo
+		if out, err := cmd.CombinedOutput(); err != nil {
+			cliErr = fmt.Errorf("go build ./cmd/nebula-cert: %v: %s", err, out)
+		}
+	})
+	return cliBin, cliErr
+}
+
+func cidrs(ps []netip.Prefix) string {
+	out := make([]string, len(ps))
+	for i, p := range ps {
+		out[i] = p.String()
+	}
+	return strings.Join(out, ",")
+}
+
+func oneLine(s string) string {
+	s = strings.TrimSpace(s)
+	if i := strings.IndexByte(s, '\n'); i >= 0 {
+		s = s[:i]
+	}
+	return strings.ReplaceAll(s, " ", "_")
+}
+
+// cliKind names what nebula-cert refused, in the vocabulary of the model's SignWith verdicts.
+func cliKind(stderr string, dupNets bool) string {
+	switch {
+	case strings.Contains(stderr, "v1 certificates can only have a single ipv4 address"):
+		return "err:cli-v1-single"
+	case strings.Contains(stderr, "invalid -networks definition: v1 certificates can only"):
+		return "err:cli-v1-ipv4"
+	case strings.Contains(stderr, "invalid -unsafe-networks definition: v1 certificates can only"):
+		return "err:cli-v1-unsafe-ipv4"
+	case strings.Contains(stderr, "-networks is required"):
+		return "err:cli-no-networks"
+	}
+	i := strings.Index(stderr, "error while signing: ")
+	if i < 0 {
+		return "err:cli-other:" + oneLine(stderr)
+	}
+	msg := stderr[i+len("error while signing: "):]
+	for _, k := range [][2]string{
+		{"certificate expires after signing certificate", "err:after-ca"},
+		{"certificate is valid before the signing certificate", "err:before-ca"},
+		{"certificate contained a group not present", "err:group"},
+		{"certificate contained a network assignment outside", "err:network"},
+		{"certificate contained an unsafe network assignment outside", "err:unsafe-network"},
+		{"non-CA certificate must contain at least 1 network", "err:invalid:no-networks"},
+		{"non-CA certificates must contain exactly one network", "err:invalid:no-networks"},
+		{"invalid network", "err:invalid:invalid-network"},
+		{"non-CA certificates must not use the zero address", "err:invalid:zero-address"},
+		{"4in6 networks are not allowed", "err:invalid:4in6"},
+		{"certificate may not contain IPv6 networks", "err:invalid:v1-ipv6"},
+		{"certificate may not contain IPv6 unsafe networks", "err:invalid:v1-ipv6-unsafe"},
+		{"invalid unsafe network", "err:invalid:invalid-unsafe"},
+		{"IPv6 unsafe networks require", "err:invalid:unsafe-needs-v6"},
+		{"IPv4 unsafe networks require", "err:invalid:unsafe-needs-v4"},
+		{"name must be between", "err:invalid:name"},
+		{"groups must not contain an empty name", "err:invalid:empty-group"},
+		{"encoded certificate is", "err:invalid:too-large"},
+		{"can not sign a CA certificate with another", "err:ca-by-ca"},
+	} {
+		if strings.HasPrefix(msg, k[0]) {
+			return k[1]
+		}
+	}
+	if strings.HasPrefix(msg, "duplicate network detected") {
+		if dupNets {
+			return "err:invalid:duplicate-network"
+		}
+		return "err:invalid:duplicate-unsafe"
+	}
+	return "err:cli-other:" + oneLine(msg)
+}
+
+// runCLI: cli <caver> <cacurve> <cadur s> <canets> <caunsafe> <cagroups> <encrypt 0|1> <ver 0|1|2> <dur s|0> n<name> <nets> <unsafe> <groups>
+// `nebula-cert ca` then `nebula-cert sign` in a scratch directory; what they wrote is read back with the real
+// decoders. Times are wall clock, so the answer carries durations and relations, not instants.
+func runCLI(a []string) string {
+	if len(a) != 14 {
+		return "bad-op"
+	}
+	bin, err := nebulaCert()
+	if err != nil {
+		return "cli-unavailable " + oneLine(err.Error())
+	}
+	dir, err := os.MkdirTemp(filepath.Dir(bin), "cli")
+	if err != nil {
+		return "cli-unavailable " + oneLine(err.Error())
+	}
+	defer os.RemoveAll(dir)
+	caver, cacurve, cadur := hlib.Atoi(a[1]), hlib.Atoi(a[2]), hlib.Atoi(a[3])
+	canets, cauns, cagroups := cl.ParsePrefixes(a[4]), cl.ParsePrefixes(a[5]), cl.ParseGroups(a[6])
+	encrypted := a[7] == "1"
+	ver, dur := hlib.Atoi(a[8]), hlib.Atoi(a[9])
+	nameB, err := hlib.UnHex(a[10][1:])
+	if err != nil {
+		return "bad-op"
+	}
+	nets, uns, groups := cl.ParsePrefixes(a[11]), cl.ParsePrefixes(a[12]), cl.ParseGroups(a[13])
+	run := func(args ...string) (string, error) {
+		cmd := exec.Command(bin, args...)
+		cmd.Dir = dir
+		cmd.Env = append(os.Environ(), "NEBULA_CA_PASSPHRASE=correct horse")
+		var eb bytes.Buffer
+		cmd.Stderr = &eb
+		err := cmd.Run()
+		return eb.String(), err
+	}
+	caArgs := []string{"ca", "-version", fmt.Sprint(caver), "-name", "ca", "-curve", map[int]string{0: "25519", 1: "P256"}[cacurve],
+		"-duration", fmt.Sprintf("%ds", cadur), "-out-crt", "ca.crt", "-out-key", "ca.key"}
+	if len(canets) > 0 {
+		caArgs = append(caArgs, "-networks", cidrs(canets))
+	}
+	if len(cauns) > 0 {
+		caArgs = append(caArgs, "-unsafe-networks", cidrs(cauns))
+	}
+	if len(cagroups) > 0 {
+		caArgs = append(caArgs, "-groups", strings.Join(cagroups, ","))
+	}
+	if encrypted {
+		caArgs = append(caArgs, "-encrypt", "-argon-memory", "8", "-argon-parallelism", "1", "-argon-iterations", "1")
+	}
+	if eb, err := run(caArgs...); err != nil {
+		return "ca:" + cliKind(eb, hasDup(canets))
+	}
+	rawCA, err := os.ReadFile(filepath.Join(dir, "ca.crt"))
+	if err != nil {
+		return "ca:err:no-output"
+	}
+	ca, _, err := cert.UnmarshalCertificateFromPEM(rawCA)
+	if err != nil {
+		return "ca:err:undecodable"
+	}
+	rawKey, _ := os.ReadFile(filepath.Join(dir, "ca.key"))
+	if encrypted != bytes.Contains(rawKey, []byte("ENCRYPTED")) {
+		return "ca:err:key-encryption-flag-ignored"
+	}
+	// the CA itself: what was asked for, self-signed, acceptable to a pool, low-S
+	caOK := int(ca.Version()) == caver && int(ca.Curve()) == cacurve && ca.IsCA() && ca.Name() == "ca" && ca.Issuer() == "" &&
+		cl.GroupsTok(ca.Groups()) == cl.GroupsTok(cagroups) && ca.CheckSignature(ca.PublicKey())
+	if d := int(ca.NotAfter().Unix() - ca.NotBefore().Unix()); d != cadur && d != cadur+1 {
+		caOK = false
+	}
+	if cacurve == 1 {
+		if low, wf := cl.LowS(ca.Signature()); !wf || !low {
+			caOK = false
+		}
+	}
+	pool := cert.NewCAPool()
+	if err := pool.AddCA(ca); err != nil {
+		caOK = false
+	}
+	sArgs := []string{"sign", "-ca-crt", "ca.crt", "-ca-key", "ca.key", "-name", string(nameB), "-out-crt", "h.crt", "-out-key", "h.key"}
+	if len(nets) > 0 {
+		sArgs = append(sArgs, "-networks", cidrs(nets))
+	}
+	if len(uns) > 0 {
+		sArgs = append(sArgs, "-unsafe-networks", cidrs(uns))
+	}
+	if len(groups) > 0 {
+		sArgs = append(sArgs, "-groups", strings.Join(groups, ","))
+	}
+	if ver != 0 {
+		sArgs = append(sArgs, "-version", fmt.Sprint(ver))
+	}
+	if dur != 0 {
+		sArgs = append(sArgs, "-duration", fmt.Sprintf("%ds", dur))
+	}
+	t0 := time.Now()
+	eb, err := run(sArgs...)
+	t1 := time.Now()
+	if err != nil {
+		if _, serr := os.Stat(filepath.Join(dir, "h.crt")); serr == nil {
+			return "sign:err:refused-but-wrote-certificate"
+		}
+		return "sign:" + cliKind(eb, hasDup(nets))
+	}
+	rawH, err := os.ReadFile(filepath.Join(dir, "h.crt"))
+	if err != nil {
+		return "sign:err:no-output"
+	}
+	c, rest, err := cert.UnmarshalCertificateFromPEM(rawH)
+	if err != nil || len(bytes.TrimSpace(rest)) != 0 {
+		return "sign:err:undecodable"
+	}
+	hk, _ := os.ReadFile(filepath.Join(dir, "h.key"))
+	priv, _, kcurve, kerr := cert.UnmarshalPrivateKeyFromPEM(hk)
+	keyOK := kerr == nil && c.VerifyPrivateKey(kcurve, priv) == nil
+	caFp, _ := ca.Fingerprint()
+	durTok := fmt.Sprint(c.NotAfter().Unix() - c.NotBefore().Unix())
+	if dur == 0 {
+		if c.NotAfter().Unix() == ca.NotAfter().Unix()-1 {
+			durTok = "d" // the default: one second before the CA expires
+		} else {
+			durTok = "x" + durTok
+		}
+	}
+	nbOK := c.NotBefore().Unix() >= t0.Unix() && c.NotBefore().Unix() <= t1.Unix()
+	lowS := "-"
+	if c.Curve() == cert.Curve_P256 {
+		low, wf := cl.LowS(c.Signature())
+		lowS = hlib.B(wf && low)
+	}
+	_, verr := pool.VerifyCertificate(time.Now(), c)
+	return fmt.Sprintf("ok %d %d %s %s n%s %s %s %s %s %s %s %s %s %s", c.Version(), c.Curve(), hlib.B(c.IsCA()), durTok, fmt.Sprintf("%x", c.Name()),
+		cl.PrefixesTok(c.Networks()), cl.PrefixesTok(c.UnsafeNetworks()), cl.GroupsTok(c.Groups()),
+		hlib.B(c.Issuer() == caFp), hlib.B(keyOK), hlib.B(nbOK), lowS, verrKind(verr), hlib.B(caOK))
+}
+
 func newExec(t *testing.T) func([]string) string {
 	return func(a []string) string {
 		switch a[0] {
@@ -223,6 +461,8 @@ func newExec(t *testing.T) func([]string) string {
 				ak = "err:other"
 			}
 			return fmt.Sprintf("ok %s %s %s -", out.Desc(), lowS, ak)
+		case "cli":
+			return runCLI(a)
 		case "norm":
 			if len(a) != 2 {
 				return "bad-op"
@@ -317,6 +557,39 @@ func gen(r *hlib.Rand, n int, tier, profile string, emit func(string, ...any)) {
 	for _, sig := range cl.BoundarySigs(r) {
 		emit("norm %s", hlib.Hex(sig))
 		emit("sws %d %s", hlib.Pick(r, 1, 2), hlib.Hex(sig))
+	}
+	// the nebula-cert binary: `ca` then `sign` on generated flags (subprocesses: a small share of the stream)
+	for i, k := 0, 12+n/60; i < k; i++ {
+		caver := hlib.Pick(r, 1, 2, 2)
+		cf := cl.Fields{Version: caver, Curve: r.Intn(2), IsCA: true, Name: "ca", NotBefore: cl.Sec(0), NotAfter: cl.Sec(1 << 40),
+			Networks: cl.CANets(r, caver == 2), Unsafe: cl.CANets(r, caver == 2), Groups: cl.CAGroups(r)}
+		cadur := hlib.Pick(r, 3600, 7200, 100000)
+		lf := cl.LeafFields(r, cf, "", true)
+		ver := lf.Version
+		if ver == caver && r.Bool() {
+			ver = 0 // default: the CA's version
+		}
+		dur := hlib.Pick(r, 0, 0, 60, 600, cadur-600, cadur+600, 2*cadur)
+		switch r.Intn(16) {
+		case 0:
+			lf.Networks = append(lf.Networks, lf.Networks...) // duplicate (v1: more than one address)
+		case 1:
+			lf.Networks = append(lf.Networks, cl.Inside(r, cl.BasePrefix(r, true), 8))
+		case 2:
+			lf.Unsafe = append(lf.Unsafe, netip.MustParsePrefix("fd00:9::/64"))
+		case 3:
+			if len(lf.Unsafe) > 0 {
+				lf.Unsafe = append(lf.Unsafe, lf.Unsafe[0])
+			}
+		case 4:
+			lf.Name = strings.Repeat("n", hlib.Pick(r, 253, 254, 300))
+		case 5:
+			lf.Networks = append(lf.Networks, netip.MustParsePrefix("::ffff:10.1.2.3/120"))
+		case 6:
+			lf.Networks = []netip.Prefix{netip.MustParsePrefix("0.0.0.0/8")}
+		}
+		emit("cli %d %d %d %s %s %s %s %d %d n%x %s %s %s", caver, cf.Curve, cadur, cl.PrefixesTok(cf.Networks), cl.PrefixesTok(cf.Unsafe), cl.GroupsTok(cf.Groups),
+			hlib.B(r.Chance(1, 4)), ver, dur, lf.Name, cl.PrefixesTok(lf.Networks), cl.PrefixesTok(lf.Unsafe), cl.GroupsTok(lf.Groups))
 	}
 	emit("sws 2 -")
 	emit("sws 1 00")
